@@ -212,6 +212,9 @@ class Arr:
             key = key.arr()
         if type(key).__name__ == "Cat":
             return type(key)([self.sym_getitem(it, part) for part in key.parts])
+        if getattr(key, "is_group_keys", False):
+            # lookup[distinct keys of a grouping]: the images need not be distinct any more
+            return MappedKeys(key, self)
         if isinstance(key, Arr):
             ke = key.e
             if _is_boolish(ke):
@@ -257,6 +260,14 @@ class Arr:
             key = key.arr()
         if isinstance(val, Series):
             val = val.arr()
+        if getattr(key, "is_group_keys", False) or isinstance(key, MappedKeys):
+            # a[b] = v with (b, v) = _sum_by_group(...): recorded for the contract (one position per distinct key holds the group's sum;
+            # keys mapped after the grouping may collide: the contract decides)
+            if it.ctx.merge_mode:
+                raise CannotMerge()
+            self.scatter_stores = getattr(self, "scatter_stores", [])
+            self.scatter_stores.append((key, val))
+            return
         if isinstance(key, Arr) and _is_boolish(key.e):
             self._check_aligned(it, key, "masked store")
             m = truth_z(key.e)
@@ -575,6 +586,14 @@ class Table:
         t = Table(self.name + "'copy", self.space, dict(self.cols), self.index_e, dict(self.optional))
         t.pos_of = self.pos_of
         return t
+
+
+class MappedKeys:
+    """lookup[keys] for the distinct keys of a grouping"""
+
+    def __init__(self, keys, lookup):
+        self.keys = keys
+        self.lookup = lookup
 
 
 class FilteredTable:
